@@ -625,8 +625,18 @@ func (fr *Frame) enterLoop(li *loopInfo, live []edgeIn, cond string, cur *State)
 		cl = append(cl, c)
 	}
 	sort.Slice(cl, func(i, j int) bool { return cl[i].id < cl[j].id })
+	var trace0, tlen0 string
+	if vc.traceCell != nil && cells[vc.traceCell] {
+		trace0, tlen0 = cur.cells[vc.traceCell], cur.cells[vc.tlenCell]
+	}
 	for _, c := range cl {
 		fr.havocCell(cur, c, partial[c])
+	}
+	if trace0 != "" {
+		// automatic invariant of every loop: the effect trace only grows (events are appended, never rewritten)
+		nt, nl := cur.cells[vc.traceCell], cur.cells[vc.tlenCell]
+		vc.fact(implies(cond, fmt.Sprintf("(>= %s %s)", nl, tlen0)))
+		vc.fact(implies(cond, fmt.Sprintf("(forall ((?k Int)) (! (=> (and (<= 0 ?k) (< ?k %s)) (= (select %s ?k) (select %s ?k))) :pattern ((select %s ?k))))", tlen0, nt, trace0, nt)))
 	}
 	for _, phi := range phis {
 		old := fr.env[phi]
@@ -1816,10 +1826,14 @@ func (fr *Frame) execSlice(in *ssa.Slice, cond string, st *State) Val {
 	// bound is cap, which we do not model; len is the conservative bound (A3)
 	vc.oblige(fr.top.oname(), "safe:slice-bounds", fr.siteLabel(), fr.top.props, cond, fmt.Sprintf("(and (<= 0 %s) (<= %s %s) (<= %s %s))", lo, lo, hi, hi, ln))
 	if lo == "0" {
-		return Val{T: in.Type(), Term: mkSlice(srt, sliceArr(srt, cur), hi, ite(eq(hi, "0"), sliceNil(srt, cur), "false"))}
+		return Val{T: in.Type(), Term: mkSlice(srt, sliceArr(srt, cur), hi, ite(eq(hi, "0"), sliceNil(srt, cur), "false")), Runes: x.Runes}
 	}
 	e := vc.S.Sort(elemT)
 	arr := vc.fresh("subarr", fmt.Sprintf("(Array Int %s)", e))
 	vc.fact(fmt.Sprintf("(forall ((?i Int)) (! (=> (<= 0 ?i) (= (select %s ?i) (select %s (+ ?i %s)))) :pattern ((select %s ?i))))", arr, sliceArr(srt, cur), lo, arr))
-	return Val{T: in.Type(), Term: mkSlice(srt, arr, fmt.Sprintf("(- %s %s)", hi, lo), "false")}
+	out := Val{T: in.Type(), Term: mkSlice(srt, arr, fmt.Sprintf("(- %s %s)", hi, lo), "false")}
+	if x.Runes != nil {
+		out.Runes = &RuneSrc{S: x.Runes.S, Lo: fmt.Sprintf("(+ %s %s)", x.Runes.Lo, lo)}
+	}
+	return out
 }
